@@ -428,6 +428,18 @@ func (e *env) run(line string) {
 	var req strings.Builder
 	req.WriteString("run")
 	user := 0
+	// identity of the Option VALUE an instance is: in "progr" programs identical instances are one value
+	values := map[inst]int{}
+	valueID := func(i inst, k, j int) int {
+		if reuse && i.name != "Dialer" {
+			if v, ok := values[i]; ok {
+				return v
+			}
+			values[i] = len(values)
+			return values[i]
+		}
+		return 1000 + 100*k + j
+	}
 	for k, c := range cs {
 		if cfgs[k] == nil {
 			req.WriteString(" cx")
@@ -477,6 +489,10 @@ func (e *env) run(line string) {
 						fmt.Fprintf(&req, " r %s u%d", f.Path, user)
 						user++
 						e.r.Hit("step:redirect-to-caller-object")
+					case !sharedRel && f.Captured:
+						// the constructor allocates outside the closure: one object per Option value
+						fmt.Fprintf(&req, " r %s v%d", f.Path, valueID(i, k, j))
+						e.r.Hit("step:redirect-to-option-value-object")
 					case !sharedRel:
 						fmt.Fprintf(&req, " r %s fresh", f.Path)
 						e.r.Hit("step:redirect-fresh")
